@@ -162,7 +162,10 @@ KEYS2B = '{[key |-> "rsa", inter |-> FALSE], [key |-> "ecdsa", inter |-> TRUE]}'
 SINVS = ['Verifies', 'CounterClean', 'OneSignature', 'TypeOK', 'SEmit']
 INVS_BY_BASE = {'Smime': SINVS, 'MsgCalls': ['IdsUnique', 'LeafIdsAreCalls', 'TreeWellFormed', 'Emit']}
 SPEC_BY_BASE = {'Smime': 'SSpec'}
+# C18 also validates the calls of the base64 line breaker (build-tag hook) against B64Line.tla
+REPLAY_ENV = {'C18': {'VERIF_B64': '1'}}
 SENS_INVS = ['Verifies', 'CounterClean']
+SENS_INVS_BY_BASE = {'B64Line': ['NeverTooLong']}
 SHDR = ["genempty", "genmulti", "toignore", "ccignore", "ccsome", "preform", "subject", "gen", "fromname"]
 STAGES['C08'] = {
     'quick': [
@@ -191,7 +194,10 @@ STAGES['C08'] = {
 SDEV = dict(MAXP='2', MAXE='1', MAXA='1', ENCS='{"qp"}', SMIMES='{[key |-> "rsa", inter |-> FALSE]}',
             HDRS=hdrsets(["genempty", "subject"], ["plain"]), PDESCS='{"", "long"}',
             OPSEQS='{<<"WriteTo", "WriteTo">>, <<"FailSinkLate", "WriteTo">>}')
-SENSITIVITY = {'C08': [(d, 'Smime', scfg(**dict(SDEV, **{d: 'TRUE'})), 'CounterClean' if d in ('DEV_NoReset', 'DEV_NoResetOnError') else 'Verifies')
+B64 = dict(SIZES='{1, 2, 3, 4, 56, 57, 72, 75, 76, 77, 80, 152, 153, 1024}', MAXCALLS='4', DEV_OffByOne='FALSE')
+DESIGN_ONLY = {'C18': [('line-breaker', 'B64Line', B64, ['FullLines', 'NeverTooLong', 'Conserves', 'Complete'])]}
+SENSITIVITY = {'C18': [('DEV_OffByOne', 'B64Line', dict(B64, DEV_OffByOne='TRUE'), 'NeverTooLong')],
+               'C08': [(d, 'Smime', scfg(**dict(SDEV, **{d: 'TRUE'})), 'CounterClean' if d in ('DEV_NoReset', 'DEV_NoResetOnError') else 'Verifies')
                        for d in ['DEV_CountUnwritten', 'DEV_FoldTopLeaf', 'DEV_NoReset', 'DEV_NoResetOnError',
                                  'DEV_FreshInnerBoundary', 'DEV_CountSignaturePart']]}
 
@@ -496,6 +502,6 @@ SELFTESTS = {
             ('leaf transfer encoding changed', mut_leaf_attr, 'C01_LeafAttributes'),
             ('outer delimiter inside inner multipart', mut_inner_delim, 'C01_BoundaryNesting')],
 }
-VACUITY = {'C08': ['smimes', 'smimes2', 'leaves'], 'C01': ['lines', 'leaves', 'trees', 'multiparts'], 'C12': ['faulted', 'outs'], 'C11': ['rerenders'],
-           'C18': ['lines', 'hdrs'], 'C02': ['lines', 'hdrs'], 'C10': ['rts', 'lines', 'leaves']}
+VACUITY = {'C18b': [], 'C08': ['smimes', 'smimes2', 'leaves'], 'C01': ['lines', 'leaves', 'trees', 'multiparts'], 'C12': ['faulted', 'outs'], 'C11': ['rerenders'],
+           'C18': ['lines', 'hdrs', 'b64segs'], 'C02': ['lines', 'hdrs'], 'C10': ['rts', 'lines', 'leaves']}
 LEVEL = {'C08': 'model_checking', 'C10': 'exploration', 'C01': 'exploration', 'C02': 'exploration', 'C11': 'model_checking', 'C12': 'fault_enumeration', 'C18': 'exploration'}
